@@ -372,6 +372,14 @@ class ListView:
         return self.lst.field(f, zi, self.v)
 
 
+class StarSym(Sym):
+    """*<list of symbolic length> in a call: becomes the callee's *args parameter as a whole"""
+    __slots__ = ('lst',)
+
+    def __init__(self, lst):
+        self.lst = lst
+
+
 class EnumSym(Sym):
     """enumerate(SymList)"""
     __slots__ = ('lst', 'start')
